@@ -199,6 +199,9 @@ func c10() int {
 		"reverted":                      int(reverted),
 		"refused":                       int(refused),
 	}
+	// the engine on the real store, against the stand-in the enumeration above ran on (realstore.go)
+	rsH, rsS := realStoreConformance(rep, "")
+	cov["realstore_histories"], cov["realstore_steps"] = rsH, rsS
 	return rep.Finish(cov)
 }
 
